@@ -159,6 +159,10 @@ EFFECT_PINS = [
      "a load from a device register reads the device with the context's io_effects flag (peek vs consuming read) and mirrors the value"),
     ("sim::Simulator::write_mem", {"C33"}, "src/sim.rs",
      "a store to a device register hands the initialised value to the internal register or the owning device once"),
+    ("sim::frame::FrameStack::new", {"C27"}, "src/sim/frame.rs",
+     "the built-in trap signatures: x20 GETC and x23 IN take nothing and return R0, x21 OUT, x22 PUTS and x24 PUTSP take R0 and return nothing, x25 HALT takes and returns nothing; no subroutine definitions; frames recorded iff debug_frames"),
+    ("<sim::device::timer::TimerDevice as sim::device::ExternalDevice>::io_reset", {"C31", "C34", "C30"}, "src/sim/device/timer.rs",
+     "resetting the timer only draws a new remaining time from its own generator (a seeded timer stays seeded)"),
     ("sim::device::timer::TimerDevice::new", {"C34", "C31"}, "src/sim/device/timer.rs",
      "a timer built with Some(seed) draws from StdRng::seed_from_u64(seed) for every seed value, with None from the OS"),
 ]
